@@ -228,15 +228,19 @@ def scan_forbidden():
     return hits
 
 
-def build_props(prop, timeout=1800):
-    """Step 1.  Returns dict(obligations, discharged, theorems, assumptions, problems)."""
+def build_props(prop, timeout=1800, models=()):
+    """Step 1.  Returns dict(obligations, discharged, theorems, assumptions, problems).
+    `models`: the model modules the generated case files import (harness MODEL): they are built too -
+    a module that only case files import (e.g. DepsCases) is no dependency of props/Cxx.vo and would
+    otherwise stay stale after a change to what it imports ("inconsistent assumptions")."""
     import fcntl
     names = theorem_names(prop)
     problems = []
+    extra = [f"theories/{m}.vo" for m in models if (COQ / "theories" / f"{m}.v").exists()]
     with open(COQ / ".build.lock", "w") as lk:      # several checks may run concurrently
         fcntl.flock(lk, fcntl.LOCK_EX)
         regen_makefile()
-        rc, out = sh(["timeout", str(timeout), "make", f"-j{NCPU}", f"props/{prop}.vo"], cwd=COQ)
+        rc, out = sh(["timeout", str(timeout), "make", f"-j{NCPU}", f"props/{prop}.vo", *extra], cwd=COQ)
     built = rc == 0
     if not built:
         problems.append({"kind": "proof-build-failed", "detail": out[-3000:]})
